@@ -15,6 +15,10 @@ package main
 //      emptied once before the first store; the column counter advances per cell and restarts after each
 //      store; a line is closed when col >= width; the draw function reaches the lines with 0 <= Offset,
 //      Offset clamped to the content, laid out for the recorded window width; line J is drawn on row J-Offset
+//      (c19_pager.go: the typestate is kept per line object, with the variables - caller's variable, parameter
+//      and result of a helper that takes and returns the pending line - that refer to it)
+//   m  widgets/pager: the column counter is not set to a constant between two appends to the same unstored
+//      line (it measures the pending line across segments and helper calls)            (c19_pager.go)
 //   c  vxfw/list: unsigned subtractions that reach an index or the scroll state are ordered by the facts in
 //      force; index expressions stay within [0,len); a selection change re-anchors the scroll state
 //      (wantsCursor raised under cursor >= top, or top = cursor with offset = 0) before the function
@@ -617,6 +621,7 @@ func runC19(c *Ctx) {
 	if os.Getenv("VX_NO_NORMALISE") == "" {
 		c19NormaliseClosures(c)
 	}
+	debugDumpFuncs(c) // VX_DUMP_FN=... prints functions as the rules see them
 	c.Clauses = []string{
 		"C19.a widgets/list: every store to List.index/offset keeps it >= 0 and every store to index keeps it <= max(0,len(items)-1) (intervals, helper summaries, one guard used once); a store to items is paired with a clamping store to index; every access to items stays within the slice",
 		"C19.e widgets/list: where items are accessed for drawing offset <= index < offset+height; item J is drawn on row J-offset; the highlighted item is the one at List.index",
